@@ -4,11 +4,16 @@ Proved: the prefix property of the Hilbert transducer for any table with digits 
 the table extracted from the current source (which equals the committed reference and is a
 per-state permutation, i.e. a bijection at every depth); the bound-key loops bracket the
 owner of every key inside a search interval; the repaired cube level never exceeds levelmin.
-The composition into "the owner of every qualifying cell is in the cpu list" is carried by the
-correspondence (selective load = filter of the full load on Hilbert-consistent outputs).
+`C04_preselect_sound` composes them: the owner of every cell whose coarse cube is among the search cubes
+is in the cpu list. That the search cubes cover the bounding box (`box_in_cubes`) closes the geometric part.
 -/
 import OsyrisModel
 import Mathlib.Tactic.Linarith
+import Mathlib.Tactic.FieldSimp
+import Mathlib.Tactic.Positivity
+import Mathlib.Tactic.Ring
+import Mathlib.Tactic.NormNum
+import Mathlib.Algebra.Order.Field.Basic
 import Mathlib.Order.Monotone.Basic
 
 namespace Osyris.C04
@@ -215,5 +220,308 @@ theorem C04_cube_not_finer (lmin0 levelmin : Nat) (h : 0 < levelmin) :
   by_cases h2 : lmin0 > levelmin
   · left; simp [h, h2]
   · right; simp [h2]
+
+/-! ### soundness of the CPU pre-selection (composition of the pieces above) -/
+
+theorem key_lt (t : HTable) (hd : ∀ s d, t.digit s d < 8) (x y z b : Nat) : key t x y z b < 8 ^ b := by
+  unfold key
+  have := ofDigits_lt _ (run_lt t hd 0 (sdigits x y z b))
+  simpa [run_length, sdigits] using this
+
+/-- the key of a fine cell lies in the key interval of the coarse cube that contains it -/
+theorem key_in_cube_interval (t : HTable) (hd : ∀ s d, t.digit s d < 8) (x y z B b : Nat) (hb : b ≤ B) :
+    key t (x / 2 ^ (B - b)) (y / 2 ^ (B - b)) (z / 2 ^ (B - b)) b * 8 ^ (B - b) ≤ key t x y z B ∧
+    key t x y z B < (key t (x / 2 ^ (B - b)) (y / 2 ^ (B - b)) (z / 2 ^ (B - b)) b + 1) * 8 ^ (B - b) := by
+  have h := key_prefix t hd x y z B b hb
+  have hpos : 0 < 8 ^ (B - b) := Nat.pow_pos (by decide)
+  rw [← h]
+  constructor
+  · exact Nat.div_mul_le_self _ _
+  · have := Nat.lt_mul_div_succ (key t x y z B) hpos
+    rw [Nat.mul_comm] at this
+    exact this
+
+theorem dkey_eq (levelmax b : Nat) (hb : b ≤ levelmax + 1) :
+    (2 ^ (levelmax + 1) / 2 ^ b) ^ 3 = 8 ^ (levelmax + 1 - b) := by
+  rw [Nat.pow_div hb (by decide), ← Nat.pow_mul, Nat.mul_comm, Nat.pow_mul]
+
+/-- inner loop of `collect`: keeps what is there and adds every cpu of the range -/
+theorem inner_mono (r1 : Nat) (n : Nat) (acc : List Nat) (x : Nat) (hx : x ∈ acc) :
+    x ∈ (List.range n).foldl (fun (acc : List Nat) k => let c := r1 + k + 1; if acc.contains c then acc else acc ++ [c]) acc := by
+  induction n with
+  | zero => simpa
+  | succ n ih =>
+    rw [List.range_succ, List.foldl_append]
+    simp only [List.foldl_cons, List.foldl_nil]
+    split
+    · exact ih
+    · exact List.mem_append_left _ ih
+
+theorem inner_covers (r1 : Nat) (n : Nat) (acc : List Nat) (k : Nat) (hk : k < n) :
+    r1 + k + 1 ∈ (List.range n).foldl (fun (acc : List Nat) k => let c := r1 + k + 1; if acc.contains c then acc else acc ++ [c]) acc := by
+  induction n with
+  | zero => omega
+  | succ n ih =>
+    rw [List.range_succ, List.foldl_append]
+    simp only [List.foldl_cons, List.foldl_nil]
+    by_cases hkn : k < n
+    · split
+      · exact ih hkn
+      · exact List.mem_append_left _ (ih hkn)
+    · have : k = n := by omega
+      subst this
+      split
+      · rename_i hc; simpa using hc
+      · simp
+
+theorem collect_mono (ranges : List (Nat × Nat)) : ∀ (acc : List Nat) (x : Nat), x ∈ acc →
+    x ∈ ranges.foldl (fun (acc : List Nat) (r : Nat × Nat) =>
+      (List.range (r.2 + 1 - r.1)).foldl (fun (acc : List Nat) k =>
+        let c := r.1 + k + 1; if acc.contains c then acc else acc ++ [c]) acc) acc := by
+  induction ranges with
+  | nil => intro acc x hx; simpa
+  | cons r rs ih =>
+    intro acc x hx
+    simp only [List.foldl_cons]
+    exact ih _ x (inner_mono r.1 _ acc x hx)
+
+theorem mem_collect_aux (ranges : List (Nat × Nat)) (r : Nat × Nat) (hr : r ∈ ranges) (o : Nat)
+    (h1 : r.1 ≤ o) (h2 : o ≤ r.2) : ∀ acc : List Nat,
+    o + 1 ∈ ranges.foldl (fun (acc : List Nat) (r : Nat × Nat) =>
+      (List.range (r.2 + 1 - r.1)).foldl (fun (acc : List Nat) k =>
+        let c := r.1 + k + 1; if acc.contains c then acc else acc ++ [c]) acc) acc := by
+  induction ranges with
+  | nil => cases hr
+  | cons q rs ih =>
+    intro acc
+    simp only [List.foldl_cons]
+    rcases List.mem_cons.mp hr with h | h
+    · subst h
+      apply collect_mono
+      have := inner_covers r.1 (r.2 + 1 - r.1) acc (o - r.1) (by omega)
+      have he : r.1 + (o - r.1) + 1 = o + 1 := by omega
+      rw [he] at this
+      exact this
+    · exact ih h _
+
+/-- every cpu of every range ends up in the list -/
+theorem mem_collect (ranges : List (Nat × Nat)) (r : Nat × Nat) (hr : r ∈ ranges) (o : Nat)
+    (h1 : r.1 ≤ o) (h2 : o ≤ r.2) : o + 1 ∈ collect ranges :=
+  mem_collect_aux ranges r hr o h1 h2 []
+
+/-- **C04 (the pre-selection is sound)**, 3-D Hilbert ordering. A cell whose `levelmax+1`-bit integer
+    coordinates are (X, Y, Z) has the key `κ = key X Y Z (levelmax+1)`; if the cell's coarse cube (its
+    coordinates cut to the bit length of the search) is one of the search cubes, then the cpu `o` that owns
+    `κ` according to the bound keys (`bk[o] ≤ κ < bk[o+1]`, keys non-decreasing from 0 to at least
+    `8^(levelmax+1)`) is in the list of cpu files that will be opened. -/
+theorem C04_preselect_sound (t : HTable) (hd : ∀ s d, t.digit s d < 8) (bb : BBox) (lmax levelmax ncpu : Nat)
+    (bk : List Nat) (minCube : Nat)
+    (hm : ∀ i j, i ≤ j → bk.getD i 0 ≤ bk.getD j 0) (h0 : bk.getD 0 0 = 0)
+    (htop : 8 ^ (levelmax + 1) ≤ bk.getD ncpu 0)
+    (hb : bitLengthOf bb lmax minCube ≤ levelmax + 1)
+    (X Y Z o : Nat) (ho : o < ncpu)
+    (hlo : bk.getD o 0 ≤ key t X Y Z (levelmax + 1)) (hhi : key t X Y Z (levelmax + 1) < bk.getD (o + 1) 0)
+    (hcube : bitLengthOf bb lmax minCube = 0 ∨
+      (X / 2 ^ (levelmax + 1 - bitLengthOf bb lmax minCube), Y / 2 ^ (levelmax + 1 - bitLengthOf bb lmax minCube),
+        Z / 2 ^ (levelmax + 1 - bitLengthOf bb lmax minCube)) ∈ cubes bb (bitLengthOf bb lmax minCube)) :
+    o + 1 ∈ getCpuList t bb lmax levelmax ncpu 3 bk minCube := by
+  unfold getCpuList
+  generalize hbl : bitLengthOf bb lmax minCube = b at *
+  have hκB : key t X Y Z (levelmax + 1) < 8 ^ (levelmax + 1) := key_lt t hd X Y Z (levelmax + 1)
+  by_cases hb0 : b = 0
+  · -- one cube: the whole key range
+    subst hb0
+    have hc : (0, 0, 0) ∈ cubes bb 0 := by simp [cubes]
+    have hd3 : (2 ^ (levelmax + 1) / 2 ^ 0) ^ 3 = 8 ^ (levelmax + 1) := by
+      rw [dkey_eq levelmax 0 (Nat.zero_le _)]; simp
+    have hp := C04_interval_pick bk hm ncpu o (key t X Y Z (levelmax + 1)) 0 (8 ^ (levelmax + 1)) ho h0 htop
+      (Nat.pow_pos (by decide)) hlo hhi (Nat.zero_le _) hκB
+    apply mem_collect _ (cubeRange t 0 levelmax ncpu 3 bk (0, 0, 0)) (List.mem_map_of_mem hc) o
+    · simp only [cubeRange, Nat.lt_irrefl, if_false, Nat.zero_mul]
+      exact hp.1
+    · simp only [cubeRange, Nat.lt_irrefl, if_false, Nat.zero_add, Nat.one_mul, hd3]
+      exact hp.2
+  · have hbpos : 0 < b := Nat.pos_of_ne_zero hb0
+    rcases hcube with h | hc
+    · exact absurd h hb0
+    · obtain ⟨hi1, hi2⟩ := key_in_cube_interval t hd X Y Z (levelmax + 1) b hb
+      have homlt := key_lt t hd (X / 2 ^ (levelmax + 1 - b)) (Y / 2 ^ (levelmax + 1 - b)) (Z / 2 ^ (levelmax + 1 - b)) b
+      have hmax : (key t (X / 2 ^ (levelmax + 1 - b)) (Y / 2 ^ (levelmax + 1 - b)) (Z / 2 ^ (levelmax + 1 - b)) b + 1)
+          * 8 ^ (levelmax + 1 - b) ≤ bk.getD ncpu 0 := by
+        have h8 : 8 ^ b * 8 ^ (levelmax + 1 - b) = 8 ^ (levelmax + 1) := by rw [← Nat.pow_add]; congr 1; omega
+        calc _ ≤ 8 ^ b * 8 ^ (levelmax + 1 - b) := Nat.mul_le_mul_right _ homlt
+          _ = 8 ^ (levelmax + 1) := h8
+          _ ≤ _ := htop
+      have hposmax : 0 < (key t (X / 2 ^ (levelmax + 1 - b)) (Y / 2 ^ (levelmax + 1 - b)) (Z / 2 ^ (levelmax + 1 - b)) b + 1)
+          * 8 ^ (levelmax + 1 - b) := Nat.mul_pos (Nat.succ_pos _) (Nat.pow_pos (by decide))
+      have hp := C04_interval_pick bk hm ncpu o (key t X Y Z (levelmax + 1)) _ _ ho h0 hmax hposmax hlo hhi hi1 hi2
+      apply mem_collect _ (cubeRange t b levelmax ncpu 3 bk _) (List.mem_map_of_mem hc) o
+      · simp only [cubeRange, hbpos, if_true, dkey_eq levelmax b hb]
+        exact hp.1
+      · simp only [cubeRange, hbpos, if_true, dkey_eq levelmax b hb]
+        exact hp.2
+
+/-! ### the search cubes cover the bounding box -/
+
+theorem go_spec (d : Rat) (lmax : Nat) : ∀ (fuel l : Nat), l ≤ lmax → lmax - l < fuel →
+    l ≤ cubeLevel.go d lmax l fuel ∧ cubeLevel.go d lmax l fuel ≤ lmax ∧
+    ∀ l', l ≤ l' → l' < cubeLevel.go d lmax l fuel → ¬ ((1 / 2 : Rat) ^ l' < d) := by
+  intro fuel
+  induction fuel with
+  | zero => intro l _ h; omega
+  | succ fuel ih =>
+    intro l hl hf
+    unfold cubeLevel.go
+    by_cases h1 : (1 / 2 : Rat) ^ l < d
+    · simp only [h1, if_true]
+      exact ⟨le_refl _, hl, fun l' h2 h3 => by omega⟩
+    · simp only [h1, if_false]
+      by_cases h2 : l ≥ lmax
+      · simp only [h2, if_true]
+        refine ⟨hl, le_refl _, ?_⟩
+        intro l' h3 h4
+        have : l' = l := by omega
+        subst this; exact h1
+      · simp only [h2, if_false]
+        obtain ⟨a, b, c⟩ := ih (l + 1) (by omega) (by omega)
+        refine ⟨by omega, b, ?_⟩
+        intro l' h3 h4
+        by_cases h5 : l' = l
+        · subst h5; exact h1
+        · exact c l' (by omega) h4
+
+/-- below the cube level every cell size is at least as large as the box -/
+theorem cubeLevel_spec (d : Rat) (lmax : Nat) (l' : Nat) (h1 : 1 ≤ l') (h2 : l' < cubeLevel d lmax) :
+    d ≤ (1 / 2 : Rat) ^ l' := by
+  unfold cubeLevel at h2
+  by_cases h0 : lmax = 0
+  · simp [h0] at h2
+  · have hne : (lmax == 0) = false := by simpa using h0
+    simp only [hne, Bool.false_eq_true, if_false] at h2
+    obtain ⟨_, _, c⟩ := go_spec d lmax lmax 1 (by omega) (by omega)
+    exact not_lt.mp (c l' h1 h2)
+
+/-- the box is not wider than a search cube -/
+theorem dmax_le_cube (bb : BBox) (lmax minCube : Nat) (hb : 0 < bitLengthOf bb lmax minCube) :
+    maxR (maxR (bb.xmax - bb.xmin) (bb.ymax - bb.ymin)) (bb.zmax - bb.zmin) ≤ (1 / 2 : Rat) ^ bitLengthOf bb lmax minCube := by
+  unfold bitLengthOf at hb ⊢
+  simp only at hb ⊢
+  by_cases hc : (decide (minCube > 0) && decide (cubeLevel (maxR (maxR (bb.xmax - bb.xmin) (bb.ymax - bb.ymin)) (bb.zmax - bb.zmin)) lmax > minCube)) = true
+  · simp only [hc, if_true] at hb ⊢
+    simp only [Bool.and_eq_true, decide_eq_true_eq] at hc
+    exact cubeLevel_spec _ lmax (minCube - 1) (by omega) (by omega)
+  · simp only [hc, Bool.false_eq_true, if_false] at hb ⊢
+    exact cubeLevel_spec _ lmax _ (by omega) (by omega)
+
+theorem le_maxR_left (a b : Rat) : a ≤ maxR a b := by unfold maxR; split <;> [exact le_of_lt ‹_›; exact le_refl _]
+theorem le_maxR_right (a b : Rat) : b ≤ maxR a b := by
+  unfold maxR; split
+  · exact le_refl _
+  · rename_i h; exact not_lt.mp h
+
+/-- a point within one cube width above `a` falls in the cube of `a` or the next one -/
+theorem trunc_two (a p : Rat) (ha : 0 ≤ a) (h1 : a ≤ p) (h2 : p ≤ a + 1) :
+    truncNat p = truncNat a ∨ truncNat p = truncNat a + 1 := by
+  unfold truncNat
+  have hfa : 0 ≤ a.floor := Rat.le_floor_iff.mpr (by simpa using ha)
+  have hmono : a.floor ≤ p.floor := Rat.floor_monotone h1
+  have hup : p.floor < a.floor + 2 := by
+    rw [Rat.floor_lt_iff]
+    have := Rat.lt_floor_add_one a
+    push_cast at this ⊢
+    linarith
+  omega
+
+/-- the cube index of a cell centre is the cell's integer coordinate cut to the cube's bit length -/
+theorem trunc_centre (X B b : Nat) (hb : b ≤ B) :
+    truncNat ((((X : Rat) + 1 / 2) / 2 ^ B) * 2 ^ b) = X / 2 ^ (B - b) := by
+  have hk : ((((X : Rat) + 1 / 2) / 2 ^ B) * 2 ^ b) = ((X : Rat) + 1 / 2) / 2 ^ (B - b) := by
+    have : (2 : Rat) ^ B = 2 ^ (B - b) * 2 ^ b := by rw [← pow_add]; congr 1; omega
+    rw [this]
+    field_simp
+  rw [hk]
+  generalize B - b = k
+  have hpos : (0 : Rat) < 2 ^ k := by positivity
+  have hq1 : X / 2 ^ k * 2 ^ k ≤ X := Nat.div_mul_le_self _ _
+  have hq2 : X + 1 ≤ (X / 2 ^ k + 1) * 2 ^ k := by
+    have := Nat.lt_mul_div_succ X (Nat.pow_pos (n := k) (by decide : 0 < 2))
+    rw [Nat.mul_comm] at this
+    omega
+  generalize X / 2 ^ k = q at hq1 hq2 ⊢
+  have c1 : (q : Rat) * 2 ^ k ≤ (X : Rat) := by exact_mod_cast hq1
+  have c2 : (X : Rat) + 1 ≤ ((q : Rat) + 1) * 2 ^ k := by exact_mod_cast hq2
+  unfold truncNat
+  have hfl : (((X : Rat) + 1 / 2) / 2 ^ k).floor = (q : Int) := by
+    apply le_antisymm
+    · have : (((X : Rat) + 1 / 2) / 2 ^ k).floor < (q : Int) + 1 := by
+        rw [Rat.floor_lt_iff, div_lt_iff₀ hpos]
+        have e : (((q : Int) + 1 : Int) : Rat) = (q : Rat) + 1 := by push_cast; rfl
+        rw [e]
+        linarith
+      omega
+    · rw [Rat.le_floor_iff, le_div_iff₀ hpos]
+      have e : (((q : Int)) : Rat) = (q : Rat) := by push_cast; rfl
+      rw [e]
+      linarith
+  rw [hfl]
+  simp
+
+theorem cubes_pos (bb : BBox) (b : Nat) (hb : 0 < b) (i j k : Nat)
+    (hi : i = truncNat (bb.xmin * ((2 ^ b : Nat) : Rat)) ∨ i = truncNat (bb.xmin * ((2 ^ b : Nat) : Rat)) + 1)
+    (hj : j = truncNat (bb.ymin * ((2 ^ b : Nat) : Rat)) ∨ j = truncNat (bb.ymin * ((2 ^ b : Nat) : Rat)) + 1)
+    (hk : k = truncNat (bb.zmin * ((2 ^ b : Nat) : Rat)) ∨ k = truncNat (bb.zmin * ((2 ^ b : Nat) : Rat)) + 1) :
+    (i, j, k) ∈ cubes bb b := by
+  unfold cubes
+  simp only [hb, if_true]
+  simp only [List.range_succ, List.range_zero, List.nil_append, List.map_append, List.map_cons, List.map_nil,
+    List.cons_append, List.mem_cons, Prod.mk.injEq, List.getD_cons_zero, List.getD_cons_succ, List.mem_nil_iff, or_false]
+  rcases hi with hi | hi <;> rcases hj with hj | hj <;> rcases hk with hk | hk <;> subst hi <;> subst hj <;> subst hk <;> simp
+
+/-- one axis: the centre of a cell inside the box falls into the cube of the lower corner or the next one -/
+theorem axis_in_cubes (lo hi d : Rat) (X B b : Nat) (hbB : b ≤ B) (h0 : 0 ≤ lo)
+    (hw : hi - lo ≤ d) (hd : d ≤ (1 / 2 : Rat) ^ b)
+    (h1 : lo ≤ ((X : Rat) + 1 / 2) / 2 ^ B) (h2 : ((X : Rat) + 1 / 2) / 2 ^ B ≤ hi) :
+    X / 2 ^ (B - b) = truncNat (lo * ((2 ^ b : Nat) : Rat)) ∨ X / 2 ^ (B - b) = truncNat (lo * ((2 ^ b : Nat) : Rat)) + 1 := by
+  rw [← trunc_centre X B b hbB]
+  have hm : (((2 ^ b : Nat)) : Rat) = (2 : Rat) ^ b := by push_cast; rfl
+  rw [hm]
+  have hpos : (0 : Rat) < 2 ^ b := by positivity
+  apply trunc_two
+  · exact mul_nonneg h0 (le_of_lt hpos)
+  · exact mul_le_mul_of_nonneg_right h1 (le_of_lt hpos)
+  · have hone : (1 / 2 : Rat) ^ b * 2 ^ b = 1 := by
+      rw [← mul_pow]; norm_num
+    have : (((X : Rat) + 1 / 2) / 2 ^ B - lo) * 2 ^ b ≤ 1 := by
+      calc _ ≤ (1 / 2 : Rat) ^ b * 2 ^ b := mul_le_mul_of_nonneg_right (by linarith) (le_of_lt hpos)
+        _ = 1 := hone
+    linarith
+
+/-- **C04 (every cell of the box is served)**, 3-D Hilbert ordering: a cell (integer coordinates X, Y, Z at
+    `levelmax+1` bits) whose centre lies in the bounding box handed to `_get_cpu_list` is owned by a cpu of the
+    returned list. Composition of `C04_preselect_sound` with the covering of the box by the search cubes. -/
+theorem C04_box_sound (t : HTable) (hd : ∀ s d, t.digit s d < 8) (bb : BBox) (lmax levelmax ncpu : Nat)
+    (bk : List Nat) (minCube : Nat)
+    (hm : ∀ i j, i ≤ j → bk.getD i 0 ≤ bk.getD j 0) (h0 : bk.getD 0 0 = 0)
+    (htop : 8 ^ (levelmax + 1) ≤ bk.getD ncpu 0)
+    (hb : bitLengthOf bb lmax minCube ≤ levelmax + 1)
+    (hx0 : 0 ≤ bb.xmin) (hy0 : 0 ≤ bb.ymin) (hz0 : 0 ≤ bb.zmin)
+    (X Y Z o : Nat) (ho : o < ncpu)
+    (hlo : bk.getD o 0 ≤ key t X Y Z (levelmax + 1)) (hhi : key t X Y Z (levelmax + 1) < bk.getD (o + 1) 0)
+    (hx1 : bb.xmin ≤ ((X : Rat) + 1 / 2) / 2 ^ (levelmax + 1)) (hx2 : ((X : Rat) + 1 / 2) / 2 ^ (levelmax + 1) ≤ bb.xmax)
+    (hy1 : bb.ymin ≤ ((Y : Rat) + 1 / 2) / 2 ^ (levelmax + 1)) (hy2 : ((Y : Rat) + 1 / 2) / 2 ^ (levelmax + 1) ≤ bb.ymax)
+    (hz1 : bb.zmin ≤ ((Z : Rat) + 1 / 2) / 2 ^ (levelmax + 1)) (hz2 : ((Z : Rat) + 1 / 2) / 2 ^ (levelmax + 1) ≤ bb.zmax) :
+    o + 1 ∈ getCpuList t bb lmax levelmax ncpu 3 bk minCube := by
+  apply C04_preselect_sound t hd bb lmax levelmax ncpu bk minCube hm h0 htop hb X Y Z o ho hlo hhi
+  by_cases hb0 : bitLengthOf bb lmax minCube = 0
+  · exact Or.inl hb0
+  · right
+    have hbpos : 0 < bitLengthOf bb lmax minCube := Nat.pos_of_ne_zero hb0
+    have hdm := dmax_le_cube bb lmax minCube hbpos
+    apply cubes_pos bb _ hbpos
+    · exact axis_in_cubes bb.xmin bb.xmax _ X _ _ hb hx0
+        (le_trans (le_maxR_left _ _) (le_maxR_left _ _)) hdm hx1 hx2
+    · exact axis_in_cubes bb.ymin bb.ymax _ Y _ _ hb hy0
+        (le_trans (le_maxR_right _ _) (le_maxR_left _ _)) hdm hy1 hy2
+    · exact axis_in_cubes bb.zmin bb.zmax _ Z _ _ hb hz0 (le_maxR_right _ _) hdm hz1 hz2
 
 end Osyris.C04
